@@ -206,7 +206,12 @@ def report_property(rep, pid, tier=None, seed=None, names=None):
             if clause in ("PolicyBeforeWarmup", "ExploreOnlyInWarmup") and rname not in VALUE_BASED:
                 continue  # C13 speaks of value-based loops only; the warm-up acting of other routines is not a listed property
             ev = t["events"][pos - 1]
-            rep.violation(f"{rname}:{clause}", f"{t['id']} event {pos} ({ev.get('ev')}): clause {clause} fails: { {k: ev[k] for k in ev if k not in ('ver',)} }"[:600],
+            key = f"{rname}:{clause}"
+            if clause == "BudgetRespected":
+                # identify the failing history: scenario and the number of steps executed against the budget, so that a
+                # listed finding does not hide a different overshoot of the same routine
+                key += f":{t['scenario'].get('label', '?')}:executed={v['executed']}/budget={t['cfg']['budget'] - t['cfg'].get('start', 0)}"
+            rep.violation(key, f"{t['id']} event {pos} ({ev.get('ev')}): clause {clause} fails: { {k: ev[k] for k in ev if k not in ('ver',)} }"[:600],
                           {"kind": "sweep", "routine": rname, "scenario": t["scenario"], "position": pos, "clause": clause})
         err = t.get("error")
         if err:
